@@ -5,9 +5,7 @@
 #include <parmcb/config.hpp>
 #include <parmcb/parmcb.hpp>
 #include <boost/iterator/function_output_iterator.hpp>
-#ifdef VERIF_VTBB
-#include "vtbb_control.hpp"
-#endif
+static bool g_no_emit = false;
 
 using namespace vh;
 
@@ -20,13 +18,20 @@ struct Runner {
     static void run(const InGraph &in, const std::string &algo, const char *wt, long tol, const std::string &meta) {
         Built<Graph> b;
         build(in, b);
+#ifdef VTBB_SHIM
+        // all regions of this call run under a seeded random schedule (different per item and algorithm)
+        vtbb::ctl().begin_call(); vtbb::ctl().mode = 1; vtbb::ctl().seed = (std::uint64_t) in.id * 2654435761ULL + std::hash<std::string>()(algo);
+#endif
         J c;
         c.s("e", "Call").s("algo", algo).s("wt", wt).i("id", in.id).i("n", in.n).raw("edges", edges_json(in)).i("den", in.den).i("tol", tol);
         if (!meta.empty()) c.raw("meta", meta);
         emit(c.str());
         const Graph &g = b.g;
         auto wm = boost::get(boost::edge_weight, g);
+        long ncyc = 0;
         auto sink = boost::make_function_output_iterator([&](const std::list<Edge> &cyc) {
+            ncyc++;
+            if (g_no_emit) return;
             std::vector<long> idx;
             for (auto &e : cyc) idx.push_back(b.idx(e));
             emit(J().s("e", "Emit").arr("cyc", idx).str());
@@ -44,7 +49,7 @@ struct Runner {
             else { emit(J().s("e", "Crash").s("what", "unknown algo " + algo).str()); return; }
             long ri, fr;
             scaled((double) ret, in.den, ri, fr);
-            emit(J().s("e", "Return").i("ret", ri).i("frac", fr).i("tol", tol).str());
+            emit(J().s("e", "Return").i("ret", ri).i("frac", fr).i("tol", tol).i("ncyc", ncyc).str());
         } catch (const std::exception &ex) {
             emit(J().s("e", "Crash").s("what", std::string("exception: ") + ex.what()).str());
         } catch (...) {
@@ -61,6 +66,7 @@ int main(int argc, char **argv) {
     long start = atol(arg_value(argc, argv, "--start", "0"));
     long tol = atol(arg_value(argc, argv, "--tol", "0"));
     int per_call_timeout = atoi(arg_value(argc, argv, "--call-timeout", "60"));
+    g_no_emit = has_flag(argc, argv, "--no-emit");
     if (!in || !out) { fprintf(stderr, "usage: h_mcb --in F --out F [--algos a,b] [--types double,int] [--start k]\n"); return 2; }
     g_out = fopen(out, start > 0 ? "a" : "w");
     if (!g_out) { perror("open out"); return 2; }
@@ -71,8 +77,10 @@ int main(int argc, char **argv) {
         const InGraph &g = graphs[k];
         for (auto &a : algos) for (auto &t : types) {
             alarm(per_call_timeout);
-            if (t == "double") Runner<GraphD>::run(g, a, "double", tol, "");
-            else if (t == "int" && g.den == 1) Runner<GraphI>::run(g, a, "int", tol, "");
+            std::string meta;
+            if (!g.extra.empty()) { meta = "{"; for (size_t q = 0; q < g.extra.size(); q++) { auto kv = split(g.extra[q], '='); if (kv.size() == 2) { if (meta.size() > 1) meta += ","; meta += "\"" + kv[0] + "\":" + kv[1]; } } meta += "}"; }
+            if (t == "double") Runner<GraphD>::run(g, a, "double", tol, meta);
+            else if (t == "int" && g.den == 1) Runner<GraphI>::run(g, a, "int", tol, meta);
             alarm(0);
         }
     }
